@@ -219,17 +219,20 @@ Fixpoint run (fuel : nat) (t : list entry) (s : dstate) (calls revs : nat) : out
 
 Definition out_of (r : outcome * nat * nat) : outcome := fst (fst r).
 
-(* well-formedness of a table w.r.t. a rank of classes (length of the MRO) bounded by D:
-   super() goes strictly up the hierarchy; only a first-try activation re-dispatches, and it
-   passes triedReversed = true. *)
-Definition entry_ok (rank : N -> nat) (D : nat) (e : entry) : bool :=
+(* well-formedness of a table w.r.t. a rank of classes (length of the MRO) bounded by D and a set
+   [lvl] of "deferring" classes (PointSetRegion.intersect first offers the question to the other
+   operand with triedReversed = False):  super() goes strictly up the hierarchy and never into a
+   deferring class from a non-deferring one;  only a first-try activation re-dispatches;  it passes
+   triedReversed = true, unless it is a deferring class handing over to a non-deferring one. *)
+Definition entry_ok (rank : N -> nat) (lvl : N -> bool) (D : nat) (e : entry) : bool :=
   let '(s, a) := e in
   match a with
-  | ASuper d => Nat.ltb (rank d) (rank (st_def s))
-  | ARev f d => negb (st_flag s) && f && Nat.leb (rank d) D
+  | ASuper d => Nat.ltb (rank d) (rank (st_def s)) && (negb (lvl d) || lvl (st_def s))
+  | ARev f d => negb (st_flag s) && Nat.leb (rank d) D && (f || (lvl (st_def s) && negb (lvl d)))
   | _ => true
   end.
-Definition table_ok (rank : N -> nat) (D : nat) (t : list entry) : bool := forallb (entry_ok rank D) t.
+Definition table_ok (rank : N -> nat) (lvl : N -> bool) (D : nat) (t : list entry) : bool :=
+  forallb (entry_ok rank lvl D) t.
 
 Definition is_result (o : outcome) : bool := match o with ORet _ | ORaise _ => true | _ => false end.
 
